@@ -172,6 +172,18 @@ impl Property for C08 {
                 compare_pub(&xpub_master, &rm, "master_neutered")?;
                 let via_seed = lib_call("xpub from_seed", || ExtendedPublicKey::from_seed(&sd))?.map_err(|e| failure("xpub_from_seed", e.to_string(), "Ok"))?;
                 compare_pub(&via_seed, &rm, "xpub_from_seed")?;
+                // the master key's own strings (depth 0, no parent, child number 0) are read back
+                let ms = bip32::to_string(&rm);
+                let mback = lib_call("xprv from_string(master)", || ExtendedPrivateKey::from_string(&ms))?.map_err(|e| failure("valid_master_xprv_accepted", format!("Err({}) for {}", e, ms), "Ok"))?;
+                compare_priv(&mback, &rm, "master_xprv_roundtrip")?;
+                let mps = bip32::to_string(&bip32::neuter(&rm));
+                let mpback = lib_call("xpub from_string(master)", || ExtendedPublicKey::from_string(&mps))?.map_err(|e| failure("valid_master_xpub_accepted", format!("Err({}) for {}", e, mps), "Ok"))?;
+                compare_pub(&mpback, &rm, "master_xpub_roundtrip")?;
+                // a master key assembled through the constructors without a parent (None) is the BIP32 master key: fingerprint 00000000
+                let mnew = lib_call("ExtendedPrivateKey::new(master, no parent)", || ExtendedPrivateKey::new(&lm.get_private_key(), &lm.get_chain_code(), &0, &0, None))?;
+                compare_priv(&mnew, &rm, "master_xprv_new_without_parent")?;
+                let mpnew = lib_call("ExtendedPublicKey::new(master, no parent)", || ExtendedPublicKey::new(&lm.get_public_key(), &lm.get_chain_code(), &0, &0, None))?;
+                compare_pub(&mpnew, &rm, "master_xpub_new_without_parent")?;
 
                 // step by step
                 let mut lcur = lm;
